@@ -1945,10 +1945,12 @@ func main() {
 	}
 	fmt.Fprintf(&out, "def translated : List String := [%s]\n\n", `"`+strings.Join(names, `", "`)+`"`)
 	if corpus {
-		var gen, wide []string
+		var gen, wide, namedFns []string
 		for _, n := range names {
 			sg := sigs[n]
 			switch {
+			case needsNamed[n] && sg.generic && sg.result == "res" && sg.resTy == "T" && len(sg.params) == 2 && sg.params[0] == "T" && sg.params[1] == "T":
+				namedFns = append(namedFns, fmt.Sprintf("(%s, %s)", leanStr(n), leanFn(n)))
 			case sg.generic && sg.result == "res" && sg.resTy == "T" && len(sg.params) == 2 && sg.params[0] == "T" && sg.params[1] == "T":
 				gen = append(gen, fmt.Sprintf("(%s, %s)", leanStr(n), leanFn(n)))
 			case !sg.generic && sg.result == "res" && sg.resTy == "uint64" && len(sg.params) == 2 && sg.params[0] == "uint64" && sg.params[1] == "uint64":
@@ -1956,6 +1958,7 @@ func main() {
 			}
 		}
 		fmt.Fprintf(&out, "/-- the functions of shape `f[T](x, y T) (T, error)` -/\ndef corpusGeneric : List (String × (IntTy → Int → Int → Res Int)) := [%s]\n\n", strings.Join(gen, ", "))
+		fmt.Fprintf(&out, "/-- the functions of that shape with a type switch (first argument: the type argument is a defined type) -/\ndef corpusNamed : List (String × (Bool → IntTy → Int → Int → Res Int)) := [%s]\n\n", strings.Join(namedFns, ", "))
 		fmt.Fprintf(&out, "/-- the functions of shape `f(x, y uint64) (uint64, error)` -/\ndef corpusU64 : List (String × (Int → Int → Res Int)) := [%s]\n\nend Hive.Gen.SafeMathCorpus\n", strings.Join(wide, ", "))
 		if len(allErrs) > 0 {
 			for _, e := range allErrs {
